@@ -63,6 +63,10 @@ fn op(p: &mut Packed, o: &[&str]) -> Option<String> {
             Ok(l) => l.get().to_string(),
             Err(_) => "panic".into(),
         },
+        ["clear"] => {
+            p.clear();
+            p.get().to_string()
+        }
         _ => return None,
     })
 }
@@ -72,6 +76,22 @@ pub fn run(args: &[&str]) -> String {
         ["bits_for", n] => match num(n) {
             Some(n) => match catch_unwind(|| Packed::bits_for(n)) {
                 Ok(b) => b.to_string(),
+                Err(_) => "panic".into(),
+            },
+            None => "bad-op".into(),
+        },
+        ["new", v] => match num(v) {
+            Some(v) => match catch_unwind(|| Packed::new(v)) {
+                Ok(Some(p)) => format!("some {}", p.get()),
+                Ok(None) => "none".into(),
+                Err(_) => "panic".into(),
+            },
+            None => "bad-op".into(),
+        },
+        ["new_from_lsb", v] => match num(v) {
+            Some(v) => match catch_unwind(|| Packed::new_from_lsb(v)) {
+                Ok(Some(p)) => format!("some {}", p.get()),
+                Ok(None) => "none".into(),
                 Err(_) => "panic".into(),
             },
             None => "bad-op".into(),
